@@ -24,7 +24,8 @@ BUDGET = {'quick': 50, 'thorough': 300}
 
 
 def bounds(tier):
-    return {'names': len(all_names()), 'formats': 6, 'paths': 4}
+    return {'names': len(all_names()), 'formats': 6, 'paths': 5, 'column_sets': len(COLSETS) if tier == 'thorough' else 6,
+            'limits': [None, 1, 3] if tier == 'quick' else [None, 1, 2, 3, 5, 1000]}
 
 
 def all_names():
